@@ -23,7 +23,7 @@ INFO = {
     'bounds': {'quick': 'histories of <=4 events from the running state (14 event kinds), then drain; a directed family of 7-event histories (work queued, two submissions of any priorities, settle = a whole reload cycle, 3 free events) across reload cycles', 'thorough': '<=6 free events; directed family with 8 events'},
     'assumptions': [
         'FsmWorld fakes (see C10): background steps and pollers complete when scheduled; a poller whose condition does not hold stays pending',
-        'work level abstraction: 0 idle, 1 queue non-empty, 2 something executing, 3 a worker busy (farm._busy / schedule.que set accordingly)',
+        'work abstraction: three independent flags - queue non-empty, something executing (needs the queue), a worker busy - toggled by events (farm._busy / schedule.que set accordingly)',
         'tools.submit.automatic / already_applied / mail are stubs; the busy flag of the real Defer admits one submission at a time',
     ],
     'outside': ['real thread timing between a poller leaving its loop and its continuation running', 'longer histories'],
@@ -52,12 +52,12 @@ def obligations(tier):
     E = fsm.EVENTS
     kk = 7 if tier == 'quick' else 8
     free = [f'e{i}' for i in range(4, kk)]
-    for lv in ('WORK up', 'FOREIGN'):
+    for lv in ('WORK queue', 'FOREIGN'):
         for x in ('SUBMIT crew', 'SUBMIT doing', 'SUBMIT todo'):
             for y in ('SUBMIT now', 'SUBMIT crew', 'SUBMIT doing', 'SUBMIT todo'):
                 pref = [E.index(lv), E.index(x), E.index(y), E.index('SETTLE')]
                 if lv == 'FOREIGN':
-                    pref = [E.index('WORK up'), E.index('WORK up'), E.index(x), E.index(y)]
+                    pref = [E.index('WORK queue'), E.index('WORK busy'), E.index(x), E.index(y)]
                     fr = free
                     sel = f"[{', '.join(map(str, pref))}, {E.index('SETTLE')}, {', '.join(fr[1:])}]"
                     sig = ', '.join(f'{v}: int' for v in fr[1:])
